@@ -26,7 +26,7 @@ OUT = ['north', 'east', 'down', 'VN', 'VE', 'VD', 'roll', 'pitch', 'heading']
 def _pva(m, cfg, perm=False):
     pd = m["pd"]
     k = cfg["k"]
-    vals = dict(lat=(50.0, -33.0, 0.0, 71.5)[k % 4], lon=(30.0, -120.0, 179.5)[k % 3], alt=(100.0, -50.0, 9000.0)[k % 3],
+    vals = dict(lat=(50.0, -33.0, 0.0, 71.5, 84.9, -85.0)[k % 6],       # the property's domain reaches |lat| = 85 lon=(30.0, -120.0, 179.5)[k % 3], alt=(100.0, -50.0, 9000.0)[k % 3],
                 VN=float(cfg["vel"][0]), VE=float(cfg["vel"][1]), VD=float(cfg["vel"][2]),
                 roll=ANGLE[cfg["rq"]], pitch=0.0, heading=ANGLE[cfg["hq"]])
     labels = LLA + VEL + RPH
@@ -125,6 +125,77 @@ def _one(m, cfg):
     return probs
 
 
+def general_predicates(m, seed, n):
+    """Numeric predicates on seeded GENERAL states (pitch within +-80 deg, real-valued velocity), computed by the harness and labelled
+    as such: left inverse, transform_to_output against the central difference of the real correct_pva read through the real state
+    difference (1e-5 relative), the measured restore order, the 2D clauses.  They reach the terms that vanish at pitch 0."""
+    pd = m["pd"]; EMod = m["error_model"]; sim = m["sim"]
+    rng = np.random.RandomState((seed * 11 + 5) % (2 ** 31))
+    probs = []
+    worst = 0.0
+    nine = LLA + VEL + RPH
+    for k in range(n):
+        alt = bool(k % 2)
+        em = EMod.InsErrorModel(alt)
+        nn = 9 if alt else 7
+        vals = [float(rng.uniform(-85, 85)) if k % 4 else float(rng.choice([84.9, -84.9, 85.0, -85.0, 84.3])), float(rng.uniform(-179, 179)),
+                float(rng.uniform(-100, 5000))] + (5.0 * rng.randn(3)).tolist() + \
+               [float(rng.uniform(-180, 180)), float(rng.uniform(-80, 80)), float(rng.uniform(-180, 180))]
+        if not alt:
+            vals[5] = 0.0            # the no-altitude mode is about states with zero vertical velocity
+        pva = pd.Series(vals, index=nine, name=0.0)
+        tag = "with_altitude=%s rph=%s v=%s" % (alt, np.round(vals[6:], 2).tolist(), np.round(vals[3:6], 2).tolist())
+        try:
+            To = np.asarray(em.transform_to_output(pva), float); Ti = np.asarray(em.transform_to_internal(pva), float)
+            if np.abs(Ti @ To - np.eye(nn)).max() > 1e-8:
+                probs.append("general: transform_to_internal @ transform_to_output is not the identity (%.3g; %s)" % (np.abs(Ti @ To - np.eye(nn)).max(), tag)); continue
+            h = np.array([1.0, 1.0, 1.0, 2.0 ** -10, 2.0 ** -10, 2.0 ** -10, 2.0 ** -12, 2.0 ** -12, 2.0 ** -12])
+            if not alt:
+                h = h[[0, 1, 3, 4, 6, 7, 8]]
+            D = np.zeros((9, nn))
+            frozen = True
+            for j in range(nn):
+                x = np.zeros(nn); x[j] = h[j]
+                plus, minus = em.correct_pva(pva, x), em.correct_pva(pva, -x)
+                D[:, j] = (_diff(m, pva, plus) - _diff(m, pva, minus)) / (2 * h[j])
+                if not alt:
+                    frozen = frozen and all(np.float64(q[c]).tobytes() == np.float64(pva[c]).tobytes() for q in (plus, minus) for c in ('alt', 'VD'))
+            if not frozen:
+                probs.append("general 2D: a correction changed altitude or vertical velocity (%s)" % tag); continue
+            if not alt and (np.any(To[2]) or np.any(To[5])):
+                probs.append("general 2D: the down / VD rows of transform_to_output are not identically zero (%s)" % tag); continue
+            dev = float(np.abs(D - To).max() / max(1.0, np.abs(To).max()))
+            worst = max(worst, dev)
+            if dev > 1e-5:
+                i = np.unravel_index(np.abs(D - To).argmax(), To.shape)
+                probs.append("general: applying x as a correction does not change the state by transform_to_output @ x: at (%s, state %d) the transform says %.6g, the state "
+                             "changes by %.6g per unit (%s)" % (OUT[i[0]], i[1], To[i], D[i], tag)); continue
+            if k % 3 == 0:          # the Trajectory (stacked) form on real-valued states
+                other = pva.copy(); other[['VN', 'VE', 'roll', 'heading']] = [float(x) for x in (2.7 * rng.randn(2)).tolist() + rng.uniform(-170, 170, 2).tolist()]
+                traj = pd.DataFrame([pva.values, other.values], index=pd.Index([0.0, 1.0], name="time"), columns=nine)
+                St = np.asarray(em.transform_to_output(traj), float)
+                if St.shape != (2, 9, nn) or not (np.allclose(St[0], To, rtol=1e-13, atol=1e-13) and
+                                                  np.allclose(St[1], np.asarray(em.transform_to_output(other), float), rtol=1e-13, atol=1e-13)):
+                    probs.append("general: transform_to_output(Trajectory) is not the stack of the per-row transforms (max deviation %.3g; %s)" % (
+                        float(np.abs(St[0] - To).max()) if St.shape == (2, 9, nn) else float('nan'), tag)); continue
+            e0 = np.array([100.0, -100.0, 50.0, 1.0, -1.0, 0.5, 1.0, -0.5, 0.75])
+            if not alt:
+                e0[[2, 5]] = 0.0
+            rs = []
+            for sc in (2.0 ** -5, 2.0 ** -7):
+                e = pd.Series(e0 * sc, index=OUT)
+                q = em.correct_pva(sim.perturb_pva(pva, e), Ti @ e.values)
+                rs.append(np.abs(_diff(m, q, pva)))
+            floor = np.array([1e-6] * 3 + [1e-8] * 6)       # only residuals far above round-off are judged
+            for i in range(9):
+                if rs[1][i] > floor[i] and int(round(math.log2(rs[0][i] / rs[1][i]) / 2.0)) < 2:
+                    probs.append("general: perturb_pva then correct_pva restores %s only to first order (residuals %.3g, %.3g at scales 1, 1/4; %s)" % (OUT[i], rs[0][i], rs[1][i], tag))
+                    break
+        except Exception as e:
+            probs.append("general: %s raised %s: %s" % (tag, type(e).__name__, str(e)[:100]))
+    return probs, worst
+
+
 def replay_configs(m, chunk):
     out = []
     for cfg in chunk:
@@ -142,6 +213,8 @@ def check(rep, pid, tier, seed):
     rep.assumptions += [
         "exact domain: roll and heading multiples of 90 deg with pitch 0, integer velocities; the Euler-angle Jacobian at non-zero pitch and the behaviour "
         "near the pitch singularity are numeric and not decided",
+        "general states (pitch within +-80 deg) are judged by numeric predicates computed by the harness (difference quotients at 1e-5 relative, measured restore order) - "
+        "labelled `numeric_predicates` in the evidence, not TLC-decided",
         "the order of the restore residual is measured from scales 2^-5, 2^-6, 2^-7 of a fixed output-space error (100 m, 1 m/s, 1 deg) and rounded; components whose "
         "residual is below the representation floor (1e-7 m, 1e-11) are not judged",
     ]
@@ -188,8 +261,14 @@ def check(rep, pid, tier, seed):
             for p in probs:
                 rep.violation("C05 InsErrorModel(with_altitude=%s) at roll %g, heading %g, velocity %s: %s" % (cfg["alt"], ANGLE[cfg["rq"]], ANGLE[cfg["hq"]], cfg["vel"], p),
                               dict(mode="config", cfg=cfg), key=p[:40])
-    rep.traces += len(cfgs)
-    rep.evaluations += len(cfgs)
+    ng = 100 if tier == "quick" else 3000
+    gp, worst = general_predicates(filt._imports(), seed, ng)
+    for p in gp:
+        rep.violation("C05 numeric predicate, %s" % p, dict(mode="general", seed=seed, n=ng), key=p[:50])
+    rep.extra["numeric_predicates"] = dict(general_states=ng, disagreements=len(gp), worst_relative_deviation_from_the_difference_quotient=worst,
+                                           note="computed by the harness (central differences, 1e-5), not TLC-decided")
+    rep.traces += len(cfgs) + ng
+    rep.evaluations += len(cfgs) + ng
     for c in cfgs:
         rep.nontrivial.add((c["alt"], c["rq"], c["hq"], tuple(c["vel"])))
     rep.rule = "one configuration = (altitude mode, roll, heading, velocity); each is compared in both transforms, their product, the derivative of the real correction, the restore order, the 2D clauses"
@@ -200,6 +279,10 @@ def check(rep, pid, tier, seed):
 
 def replay(rep, pid, case):
     m = filt._imports()
+    if case.get("mode") == "general":
+        for p in general_predicates(m, case["seed"], case["n"])[0]:
+            rep.violation("C05 replay: %s" % p, case)
+        return
     for cfg, probs in replay_configs(m, [case["cfg"]]):
         for p in probs:
             rep.violation("C05 replay: %s" % p, case)
